@@ -54,39 +54,46 @@ def rule_kb1_kb5(repo, col):
     wl = [n for n in ast.walk(f.node) if isinstance(n, ast.While)]
     if len(wl) != 1:
         raise AnalysisError("KBestEvaluator.evaluate: improvement loop not found")
-    rets = [r for r in ast.walk(f.node) if isinstance(r, ast.Return) and r.value is not None]
     pair = "(%s.value, 1.0 - %s.value)" % (lb, ub)
-    seen = {"lb": 0, "ub": 0, "pair": 0}
-    parents = m.parents()
-    for r in rets:
-        v = norm(r.value)
-        if v in ("0.0", "1.0"):
+    # the completion exit inside the loop: which border completed decides what is exact
+    comp = [n for n in ast.walk(wl[0]) if isinstance(n, ast.If) and norm(n.test) == "nborder.is_complete()"]
+    if len(comp) != 1:
+        raise AnalysisError("KBestEvaluator.evaluate: completion test inside the loop not found")
+    cps = dtable.extract_block(comp[0].body, opaque_loops=True)
+    n_side = {True: 0, False: 0}
+    for p in cps:
+        if p.end != "return":
+            col.fail("KB5", m, comp[0], "when a border is complete the search must return", construct="completion exit: no return", function="KBestEvaluator.evaluate")
             continue
-        # nearest `nborder == lb` test
-        cur, child = parents.get(r), r
-        side = None
-        while cur is not None and cur is not f.node:
-            if isinstance(cur, ast.If) and norm(cur.test) in ("nborder == %s" % lb, "nborder is %s" % lb):
-                side = "lb" if any(child is x or any(child is y for y in ast.walk(x)) for x in cur.body) else "ub"
-                break
-            if isinstance(cur, ast.If) and norm(cur.test) in ("nborder == %s" % ub, "nborder is %s" % ub):
-                side = "ub" if any(child is x or any(child is y for y in ast.walk(x)) for x in cur.body) else "lb"
-                break
-            child, cur = cur, parents.get(cur)
-        if side == "lb":
-            seen["lb"] += 1
-            col.decide("KB5", m, r, v == "%s.value" % lb, "a complete lower border returns its value", "when the lower border is complete the exact probability is %s.value; found %s" % (lb, v),
-                       function="KBestEvaluator.evaluate")
-        elif side == "ub":
-            seen["ub"] += 1
-            col.decide("KB5", m, r, v == "1.0 - %s.value" % ub, "a complete upper border returns one minus its value", "when the upper border is complete the exact probability is 1.0 - %s.value; found %s" % (ub, v),
-                       function="KBestEvaluator.evaluate")
-        else:
-            seen["pair"] += 1
+        cd = dict((s_, t) for s_, t, _ in p.conds)
+        side = cd.get("nborder == %s" % lb)
+        if side is None:
+            side = cd.get("nborder is %s" % lb)
+        if side is None:
+            s2 = cd.get("nborder == %s" % ub)
+            side = None if s2 is None else (not s2)
+        if side is None:
+            col.fail("KB5", m, comp[0], "when a border is complete evaluate returns %s without asking WHICH border completed: only the complete border's mass is exact (lower: %s.value, "
+                     "upper: 1.0 - %s.value); the other border's value is a partial sum" % (p.value, lb, ub), construct="completion exit: border not distinguished", function="KBestEvaluator.evaluate")
+            continue
+        n_side[side] += 1
+        want = "%s.value" % lb if side else "1.0 - %s.value" % ub
+        col.decide("KB5", m, comp[0], p.value == want, "a complete %s border returns %s" % ("lower" if side else "upper", want),
+                   "when the %s border is complete the exact probability is %s; found %s" % ("lower" if side else "upper", want, p.value),
+                   construct="completion exit: %s border" % ("lower" if side else "upper"), function="KBestEvaluator.evaluate")
+    # every other non-constant return is the interval, lower bound first
+    inside = set(id(x) for x in ast.walk(comp[0]))
+    n_pair = 0
+    for r in ast.walk(f.node):
+        if isinstance(r, ast.Return) and r.value is not None and id(r) not in inside:
+            v = norm(r.value)
+            if v in ("0.0", "1.0"):
+                continue
+            n_pair += 1
             col.decide("KB5", m, r, v == pair, "an interval is returned as (lower bound, upper bound)", "an incomplete search must return %s (lower bound first); found %s" % (pair, v),
                        function="KBestEvaluator.evaluate")
-    if not (seen["lb"] and seen["ub"] and seen["pair"]):
-        raise AnalysisError("KBestEvaluator.evaluate: exits not found (%s)" % seen)
+    if n_pair < 1:
+        raise AnalysisError("KBestEvaluator.evaluate: interval exits not found")
     conv = [n for n in ast.walk(wl[0]) if isinstance(n, ast.If) and "_convergence" in norm(n.test)]
     okv = len(conv) == 1 and norm(conv[0].test).replace(" ", "") in ("%s.value+%s.value>1.0-self._convergence" % (ub, lb), "%s.value+%s.value>1.0-self._convergence" % (lb, ub))
     col.decide("KB5", m, conv[0] if conv else wl[0], okv, "convergence when the two masses add up to (almost) 1", "the convergence test must be ub.value + lb.value > 1.0 - convergence",
